@@ -112,9 +112,27 @@ SyncFacts.vos SyncFacts.vok SyncFacts.required_vos: SyncFacts.v Sync.vos
 Sync2.vo Sync2.glob Sync2.v.beautified Sync2.required_vo: Sync2.v 
 Sync2.vio: Sync2.v 
 Sync2.vos Sync2.vok Sync2.required_vos: Sync2.v 
+Sync2Run.vo Sync2Run.glob Sync2Run.v.beautified Sync2Run.required_vo: Sync2Run.v Sync2.vo
+Sync2Run.vio: Sync2Run.v Sync2.vio
+Sync2Run.vos Sync2Run.vok Sync2Run.required_vos: Sync2Run.v Sync2.vos
 Sync2Facts.vo Sync2Facts.glob Sync2Facts.v.beautified Sync2Facts.required_vo: Sync2Facts.v Sync2.vo
 Sync2Facts.vio: Sync2Facts.v Sync2.vio
 Sync2Facts.vos Sync2Facts.vok Sync2Facts.required_vos: Sync2Facts.v Sync2.vos
+Sync2RunFacts.vo Sync2RunFacts.glob Sync2RunFacts.v.beautified Sync2RunFacts.required_vo: Sync2RunFacts.v Sync2.vo Sync2Facts.vo Sync2Run.vo
+Sync2RunFacts.vio: Sync2RunFacts.v Sync2.vio Sync2Facts.vio Sync2Run.vio
+Sync2RunFacts.vos Sync2RunFacts.vok Sync2RunFacts.required_vos: Sync2RunFacts.v Sync2.vos Sync2Facts.vos Sync2Run.vos
+Sync2ProgressA.vo Sync2ProgressA.glob Sync2ProgressA.v.beautified Sync2ProgressA.required_vo: Sync2ProgressA.v Sync2.vo Sync2Facts.vo
+Sync2ProgressA.vio: Sync2ProgressA.v Sync2.vio Sync2Facts.vio
+Sync2ProgressA.vos Sync2ProgressA.vok Sync2ProgressA.required_vos: Sync2ProgressA.v Sync2.vos Sync2Facts.vos
+Sync2ProgressB.vo Sync2ProgressB.glob Sync2ProgressB.v.beautified Sync2ProgressB.required_vo: Sync2ProgressB.v Sync2.vo Sync2Facts.vo Sync2ProgressA.vo
+Sync2ProgressB.vio: Sync2ProgressB.v Sync2.vio Sync2Facts.vio Sync2ProgressA.vio
+Sync2ProgressB.vos Sync2ProgressB.vok Sync2ProgressB.required_vos: Sync2ProgressB.v Sync2.vos Sync2Facts.vos Sync2ProgressA.vos
+Sync2ProgressC.vo Sync2ProgressC.glob Sync2ProgressC.v.beautified Sync2ProgressC.required_vo: Sync2ProgressC.v Sync2.vo Sync2Facts.vo Sync2ProgressA.vo
+Sync2ProgressC.vio: Sync2ProgressC.v Sync2.vio Sync2Facts.vio Sync2ProgressA.vio
+Sync2ProgressC.vos Sync2ProgressC.vok Sync2ProgressC.required_vos: Sync2ProgressC.v Sync2.vos Sync2Facts.vos Sync2ProgressA.vos
+Sync2Progress.vo Sync2Progress.glob Sync2Progress.v.beautified Sync2Progress.required_vo: Sync2Progress.v Sync2.vo Sync2Facts.vo Sync2ProgressA.vo Sync2ProgressB.vo Sync2ProgressC.vo
+Sync2Progress.vio: Sync2Progress.v Sync2.vio Sync2Facts.vio Sync2ProgressA.vio Sync2ProgressB.vio Sync2ProgressC.vio
+Sync2Progress.vos Sync2Progress.vok Sync2Progress.required_vos: Sync2Progress.v Sync2.vos Sync2Facts.vos Sync2ProgressA.vos Sync2ProgressB.vos Sync2ProgressC.vos
 Iterator.vo Iterator.glob Iterator.v.beautified Iterator.required_vo: Iterator.v Bytes.vo Segment.vo Stack.vo
 Iterator.vio: Iterator.v Bytes.vio Segment.vio Stack.vio
 Iterator.vos Iterator.vok Iterator.required_vos: Iterator.v Bytes.vos Segment.vos Stack.vos
